@@ -19,6 +19,7 @@ FromObs(o) ==
 ActFor(act) ==
   CASE act.a = "mljoin"     -> MLJoin(act.x)
     [] act.a = "mlleave"    -> MLLeave(act.x)
+    [] act.a = "mlupdate"   -> MLUpdate(act.x)
     [] act.a = "msg"        -> NetMsg(act.ty, act.x, act.lt, act.prune)
     [] act.a = "merge"      -> NetMerge(act.pp)
     [] act.a = "forceleave" -> ApiForceLeave(act.x, act.prune)
